@@ -12,6 +12,12 @@ def script_for(ob, meta):
         c = max(0, min(m.get(name + '.ncols', dc), 4096))
         return r, c
     tc = {0: 'i', 1: 'd', 2: 'z'}.get(m.get('self.id', 1), 'd')
+    if fn in ('matrix_ass_subscr', 'matrix_ass_subscr_noalias') and \
+            ob.kind == 'nooverflow' and ('rowstep' in ob.text or
+                                         'colstep' in ob.text):
+        return ("A = matrix(range(6), (2,3), 'd')\n"
+                "A[::2**40, ::2**40] = matrix(7.0, (1,1))\n"
+                "print('RESULT', list(A))\n", 'ubsan')
     if fn == 'matrix_subscr' and ob.kind == 'nooverflow' and (
             'rowstep' in ob.text or 'colstep' in ob.text):
         return ("A = matrix(range(6), (2,3), 'd')\n"
@@ -25,6 +31,23 @@ def script_for(ob, meta):
                 "    A[[0]*65536, [0]*65536] = [1.0]\n"
                 "except TypeError as e:\n"
                 "    print('RESULT', e)\n", 'ubsan')
+    if fn in ('matrix_ass_subscr', 'matrix_ass_subscr_noalias') and \
+            ob.kind == 'frame':
+        return ('''
+bad = []
+for tc in 'idz':
+    A = matrix(0, (4, 5), tc)
+    for shape in ((3, 2), (6, 1), (1, 6), (2, 3)):
+        B = matrix(1, shape, tc)
+        try:
+            A[0:2, 1:4] = B
+        except TypeError:
+            pass
+        if B.size != shape:
+            bad.append((tc, shape, B.size))
+print('RESULT', bad[:5])
+assert not bad, 'A[r,c] = B changed B: %r' % (bad[:4],)
+''', 'assert')
     if fn in ('matrix_ass_subscr', 'matrix_ass_subscr_noalias') and \
             ob.kind == 'extern-requires':
         return ("A = matrix([1, 0] + [0]*6)\n"
@@ -207,6 +230,20 @@ for code, tc in (('d', 'd'), ('l', 'i'), ('i', 'i')):
 print('RESULT', bad[:3])
 assert not bad, 'matrix(buffer) does not reproduce the exporter: %r' % (
     bad[:2],)
+''', 'assert')
+    if fn == 'matrix_new':
+        return ('''
+bad = []
+for size in ((2**32 + 1, 1), (1, 2**32 + 1), (2**32, 0), (0, 2**32 + 3)):
+    for x in (1.0, [], [1.0]):
+        try:
+            A = matrix(x, size)
+        except (TypeError, OverflowError, ValueError, MemoryError):
+            continue
+        if A.size != size:
+            bad.append((repr(x), size, A.size))
+print('RESULT', bad[:5])
+assert not bad, 'matrix(x, size) returned another size: %r' % (bad[:4],)
 ''', 'assert')
     if fn == 'dense_concat':
         return ('''
